@@ -1,5 +1,7 @@
 import MpgsModel.Lemmas.RouterTable
 import MpgsModel.Lemmas.RouterUnique
+import MpgsModel.Lemmas.RouterPlain
+import MpgsModel.Lemmas.RouterWitness
 /-
 C16 — HTTP router matches paths exactly as the documented pattern grammar says.
 
@@ -58,6 +60,39 @@ theorem C16_bindings_eq_spec (pattern : List Char) (re : Re) (toks : List (List 
   groups_eq_bindings (parsePattern pattern) re toks hc (parsePattern_wf pattern)
     (parsePattern_ne pattern) path hp caps hm
 
+/-- **`Spec` is the plain documented rule wherever the documentation speaks**: on a path without
+    empty segments (`Spec.clean`, no `//`) `Spec.pathMatches` coincides with `Spec.plainMatches` —
+    drop one trailing `/`, split `/s1/…/sn`, literal = equal segment, `:n` one segment, `:n?` zero or
+    one, `:n+` one or more, `:n*` zero or more.  The choices `Spec` makes for empty segments are
+    invisible there. -/
+theorem C16_spec_is_plain_rule (pattern : List Char) (path : List Char)
+    (hn : nFinal (parsePattern pattern) ≤ 1) (hp : PathOK path) (hc : Spec.clean path = true) :
+    Spec.pathMatches (parsePattern pattern) path = Spec.plainMatches (parsePattern pattern) path :=
+  pathMatches_eq_plain (parsePattern pattern) path hn (parsePattern_ne pattern) hp.1 hc
+
+/-- hence: on paths without empty segments the compiled regex accepts exactly what the plain
+    documented rule accepts -/
+theorem C16_regex_iff_plain_rule (pattern : List Char) (re : Re) (toks : List (List Char))
+    (hc : patternToRegex pattern = .ok (re, toks)) (path : List Char) (hp : PathOK path)
+    (hcl : Spec.clean path = true) :
+    (reMatch re path).isSome = true ↔ Spec.plainMatches (parsePattern pattern) path = true := by
+  rw [C16_regex_iff_spec_string pattern re toks hc path hp,
+    C16_spec_is_plain_rule pattern path ((compile_isOk _).mp ⟨re, toks, hc⟩) hp hcl]
+
+/-- **one optional trailing slash is tolerated**: a path without empty segments that does not end
+    in `/` is accepted exactly when the same path plus one `/` is -/
+theorem C16_trailing_slash_tolerated (pattern : List Char) (re : Re) (toks : List (List Char))
+    (hc : patternToRegex pattern = .ok (re, toks)) (path : List Char) (hp : PathOK path)
+    (hcl : Spec.clean path = true) (hl : path.getLast? ≠ some '/') :
+    (reMatch re (path ++ ['/'])).isSome = (reMatch re path).isSome := by
+  have hcl' : Spec.clean (path ++ ['/']) = true := by
+    unfold Spec.clean at hcl ⊢
+    rw [plainSegs_snoc path hl]; exact hcl
+  rw [Bool.eq_iff_iff, C16_regex_iff_plain_rule pattern re toks hc path hp hcl,
+    C16_regex_iff_plain_rule pattern re toks hc (path ++ ['/']) (pathOK_snoc hp) hcl']
+  unfold Spec.plainMatches
+  rw [plainSegs_snoc path hl]
+
 /-- a pattern is accepted iff it has at most one `?`/`+`/`*` parameter (else `ValueError`) -/
 theorem C16_two_multi_params_rejected (pat : List Elem) :
     (∃ re toks, compile pat = .ok (re, toks)) ↔ nFinal pat ≤ 1 :=
@@ -110,8 +145,6 @@ theorem C16_404 (rs : List Route) (t : Table) (method : String) (path : List Cha
 
 /-! ### non-vacuity -/
 
-private def s (x : String) : List Char := x.toList
-
 example : PathOK (s "/abc/x/y/") := ⟨⟨_, rfl⟩, by unfold NoNl; decide⟩
 example : ∀ e ∈ parsePattern (s "/abc/:rest+"), e.WF := parsePattern_wf _
 example : parsePattern (s "/a.b/:x/:y?") = [.lit (s "a.b"), .param (s "x"), .opt (s "y")] := by decide
@@ -124,23 +157,33 @@ example : Spec.pathMatches (parsePattern (s "/a.b")) (s "/aXb") = false := by de
 example : Spec.pathMatches (parsePattern (s "/a/:x*/b")) (s "/a/p/q/b/") = true := by decide
 example : nFinal (parsePattern (s "/a/:x*/:y?")) = 2 := by decide
 example : ∀ e ∈ parsePattern (s "/abc/:rest+"), e.NE := parsePattern_ne _
+example : Spec.clean (s "/abc/x/y/") = true := by decide
+example : Spec.clean (s "/") = true := by decide
+example : Spec.clean (s "/abc//y") = false := by decide
+-- the cleanliness hypothesis is needed: on `//b` the plain reading lets `:x+` take the empty segment
+example : Spec.plainMatches (parsePattern (s "/:x+/b")) (s "//b") = true ∧
+    Spec.pathMatches (parsePattern (s "/:x+/b")) (s "//b") = false := by decide
 -- the normalisation is needed: with the trailing slash the Spec admits both `x/y/` and `x/y`
 example : Spec.sols (parsePattern (s "/abc/:rest+")) (s "/abc/x/y/")
     = [[some (s "x/y/")], [some (s "x/y")]] := by decide
 example : ValEq (some (s "x/y/")) (some (s "x/y")) := Or.inr (Or.inl rfl)
+-- a concrete table for `C16_first_route_wins` / `C16_404`: both routes accept `/a/q`, the first wins;
+-- only the second accepts `/a/`; nothing accepts `/b`
+example : (registerRoutes emptyTable [⟨1, "GET", s "/a/:x"⟩, ⟨2, "GET", s "/a/:x?"⟩]).2 = none := by
+  decide
+example :
+    let t := (registerRoutes emptyTable [⟨1, "GET", s "/a/:x"⟩, ⟨2, "GET", s "/a/:x?"⟩]).1
+    (getRoute t "GET" (s "/a/q")).map (·.1.id) = some 1 ∧
+    (getRoute t "GET" (s "/a/")).map (·.1.id) = some 2 ∧
+    (dispatch t false "GET" (s "/b")).status? = some 404 ∧
+    (dispatch t false "PUT" (s "/a/q")).status? = some 404 := by
+  decide
 
 /-! ### the two defects of the unrepaired code, in the model
 
 `^\/abc\/?(.+)\/?$` (the text the unrepaired code generates for `/abc/:rest+`) and `^\/a?\/?$`
 (for the literal part `a?`, metacharacter unescaped; `/a.b` vs `/aXb` is the same defect, but a
 bare `.` is outside the modelled fragment) accept paths the documented rule rejects. -/
-
-private def unpatchedPlus : Re :=
-  .seq .bol (.seq (.seq (.chr '/') (litRe (s "abc")))
-    (.seq (.seq (.opt (.chr '/')) (.grp 0 (.star .any true))) tailRe))
-
-private def unescapedQuestion : Re :=
-  .seq .bol (.seq (.seq (.chr '/') (.opt (.chr 'a'))) tailRe)
 
 theorem C16_unpatched_plus_overmatches :
     (String.ofList unpatchedPlus.pretty = "^\\/abc\\/?(.+)\\/?$") ∧
